@@ -944,6 +944,10 @@ class Fold:
                 if d.get("init") is not None:
                     env[d["decl"]] = self.ev(d["init"], env)
                     t_ = (d.get("type") or "").strip()
+                    if self.opaque_types and re.search(self.opaque_types, t_):
+                        # a named (opaque) local: remember what it was initialised from, e.g. the local a helper returned
+                        self.opaque_inits = getattr(self, "opaque_inits", {})
+                        self.opaque_inits[d["name"]] = env[d["decl"]]
                     i0 = unwrap(d["init"])
                     if t_.endswith("&") and i0 is not None and i0.get("k") in ("member", "mcall", "opcall", "subscript", "unop"):
                         self.transparent = getattr(self, "transparent", set())
